@@ -212,8 +212,12 @@ func (its *clientImpl) subscribeOrCreateDatatype(
 	// TODO: this would be better go into datatypeManager
 	if its.datatypeManager != nil {
 		data, err := its.datatypeManager.ExistDatatype(key, typeOf)
-		if err != nil && handler != nil {
-			handler.errorHandler(nil, err)
+		if err != nil {
+			// the key is refused whether or not somebody listens: handing out a second, unregistered datatype
+			// for it would never be synchronized.
+			if handler != nil && handler.errorHandler != nil {
+				handler.errorHandler(nil, err)
+			}
 			return nil
 		}
 		if data != nil {
@@ -246,7 +250,7 @@ func (its *clientImpl) subscribeOrCreateDatatype(
 		}
 	}
 
-	if handler != nil && errs.Return() != nil {
+	if handler != nil && handler.errorHandler != nil && errs.Return() != nil {
 		handler.errorHandler(nil, errs.ToArray()...)
 	}
 	return datatype
